@@ -8,13 +8,13 @@ TECH = 'contract-based deductive verification: Python-AST -> z3 VCs (pyvc), side
 BASE = 'Trusted: pyvc (home-grown symbolic executor / VC generator / effect analysis), hand-encoded well-formedness axioms (pyvc/theory.py, asserted natively on every stand-in model), typing of list-valued / natural-valued spec functions, z3 5.1. '
 CLAIMED = {
     'C03': dict(category='proof', design_ref='DESIGN.md section 4 C03, section 9',
-        text='46 functions of models/feature_model.py are under sidecar contracts whose postconditions come from the property (rel_class '
+        text='46 functions of models/feature_model.py and the operator scan of the dependency are under sidecar contracts whose postconditions come from the property (rel_class '
              'partition, rels/feats listings, feature predicates, filtered listings, lookup by name, the constraint-kind predicates and listings '
              'requires / excludes / simple against the documented forms, and the remaining constraint-kind listings as exactly the filter of the model\'s '
              'constraints by the corresponding predicate, shared with C18) and every obligation generated from the current '
              'source is discharged by z3 for all well-formed heaps, unbounded in size; purity of 40 queries by the effect analysis. Stand-in (bounded): '
              'same contracts natively on all trees <= 4 features, special families, in-place edit histories.',
-        note=BASE + '"Each element exactly once" rests on the tree axioms (unique owner slot). Listings are proved as sequences in model order (stricter than the property, which fixes the elements only: an order-only change is reported as undecided, not as a violation). The predicates logical / arithmetic / aggregation / complex / pseudo- and strict-complex are used in those listing clauses as pure functions of the constraint and the heap; what they compute is decided under C18 (natively for the operator scans of the dependency).'),
+        note=BASE + '"Each element exactly once" rests on the tree axioms (unique owner slot). Listings are proved as sequences in model order (stricter than the property, which fixes the elements only: an order-only change is reported as undecided, not as a violation). The predicates are used in those listing clauses as pure functions of the constraint and the heap; logical / arithmetic / aggregation / complex are themselves proved against recursive definitions over the tree (AST.get_operators with its explicit stack modelled as a cons list, loop invariant over collected operators and waiting sub-trees); pseudo- and strict-complex rest on split_constraint, decided under C18 natively.'),
     'C13': dict(category='other', design_ref='DESIGN.md section 4 C13, section 9',
         text='Proved for all well-formed trees: count_configurations_rec(f) == N(f), the closed form written from the configuration semantics '
              '(product over relations; mandatory/optional/alternative/or/mutex cases by fold induction), count_configurations and execute store it; '
